@@ -717,6 +717,13 @@ func (env *specEnv) evalCall(x *SCall) TV {
 		argn(1)
 		a := env.eval(x.Args[0])
 		return TV{T: app("b2i", a.T), Sort: "Int"}
+	case "trunc": // trunc(x): Go's int(x) for a float x
+		argn(1)
+		a := env.eval(x.Args[0])
+		u.global("(declare-fun f2i (Real) Int)")
+		t := fmt.Sprintf("(ite (>= %s 0.0) (to_int %s) (- (to_int (- %s))))", a.T, a.T, a.T)
+		env.fc.sc.assume(fmt.Sprintf("(=> (and (> %s (- 9000000000000000000.0)) (< %s 9000000000000000000.0)) (= (f2i %s) %s))", a.T, a.T, a.T, t))
+		return TV{T: app("f2i", a.T), Sort: "Int"}
 	case "real":
 		argn(1)
 		a := env.eval(x.Args[0])
